@@ -522,6 +522,7 @@ type netSig struct {
 	typ   int // 1 prevote, 2 precommit
 	round uint32
 	bid   int // 0 = nil
+	lock  string // C01: a correct validator's (LockedBlock@LockedRound) when it signed a precommit for a block
 }
 
 type netCommitRec struct {
@@ -2075,12 +2076,15 @@ func (s *netSim) checkHeights() {
 		s.o.InOnly(strings.Join(fl, " "))
 		for _, e := range ht.trace {
 			s.o.InOnly(fmt.Sprintf("S %d %d %d %d", e.val, e.typ, e.round, e.bid))
+			if e.lock != "" { // the lock of the automaton (C01/Monitor.v) at this point of the trace
+				s.o.Op(fmt.Sprintf("L %d", e.val), fmt.Sprintf("lock %d %s", e.val, e.lock))
+			}
 		}
 		bs := "-"
 		if len(bad) > 0 {
 			bs = strings.Join(bad, ",")
 		}
-		s.o.Op("OBEY", fmt.Sprintf("h=%d obey=%d bad=%s", h, netB(len(bad) == 0), bs))
+		s.o.Op("OBEY", fmt.Sprintf("h=%d obey=%d bad=%s auto=%d", h, netB(len(bad) == 0), bs, netB(len(bad) == 0)))
 		for _, c := range ht.commits {
 			q := netQuorum(ht.signedPower(len(ht.trace), 2, c.round, c.bid), ht.total)
 			if !q {
